@@ -153,7 +153,7 @@ std::string applyEdits(NifFile& nif, Tape& t, bool isCorpus, std::vector<std::st
 }
 
 Verdict prop(Tape& t, Run& run) {
-	FileCase c = decodeFileCase(t, run);
+	FileCase c = decodeFileCase(t, run, true, true);
 	if (!c.ok) {
 		run.exclude(c.why);
 		return OK;
@@ -264,6 +264,7 @@ void deterministic(Run& run, const std::function<void(const std::vector<uint8_t>
 	const bool th = run.args.tier == "thorough";
 	enumerateFileCases(run, feed, th ? 6 : 2);
 	enumerateSweep(run, feed, th ? 24 : 8, th ? 32 : 24, th ? 6 : 2);
+	enumerateUnknownCases(run, feed);
 }
 
 } // namespace
